@@ -84,6 +84,21 @@ def read_header(filename):
     return header_dict
 
 
+def get_header_size(header):
+    """
+    Size in bytes of a header as stored in the file: 80 bytes per card including END, 
+    padded to a multiple of 512 only if DIRECTIO is non-zero.
+    """
+    header_size = 80 * (len(header) + 1)
+    try:
+        directio = int(str(header.get('DIRECTIO', 0)).replace("'", "")) != 0
+    except ValueError:
+        directio = False
+    if directio:
+        header_size = int(512 * np.ceil(header_size / 512))
+    return header_size
+
+
 def get_stem(filename):
     """
     Extract RAW stem from RAW filename.
@@ -156,7 +171,7 @@ def get_blocks_in_file(filename):
     header = read_header(filename)
     with open(filename, "rb") as f:
         count = 0
-        block_read_size = int(512 * np.ceil((80 * (len(header) + 1)) / 512)) + int(header['BLOCSIZE'])
+        block_read_size = get_header_size(header) + int(header['BLOCSIZE'])
         while f.read(block_read_size):
 #             chunk = f.read(block_read_size)
 #             if len(chunk) == 0:
@@ -211,7 +226,7 @@ def get_dists(filename):
     header = read_header(filename)
     with open(filename, "rb") as f:
         i = 0
-        header_size = int(512 * np.ceil((80 * (len(header) + 1)) / 512))
+        header_size = get_header_size(header)
         f.read(header_size)
         
         block_size = int(header['BLOCSIZE'])
